@@ -41,6 +41,7 @@ struct Knobs {
         double p_probe_ok = 0.3;
         double p_phases = 0.3;
         double p_long_run = 0.03;
+        double p_cut_crlf = 0.08;
         int max_svc_gap = 60;
         bool observe = true;
         bool scribble = false;
@@ -167,9 +168,12 @@ struct Gen {
                         }
                         if ((kind == K_READ || kind == K_TEST) && r.chance(K.p_text_act)) {
                                 st.act = r.coin() ? A_SETTEXT : A_APPEND;
-                                int mx = std::max(1, cap - 2);
-                                int len = r.chance(0.15) ? mx : (int)r.range(1, std::min(mx, 12));
+                                int mx = std::max(2, cap - 2);
+                                int len = r.chance(0.15) ? mx : (int)r.range(2, std::min(mx, 12));
+                                // handler texts of event sources and of line-addressable commands never coincide, so that
+                                // a unit on the wire is attributable to its producer
                                 st.text = rand_text(len, true);
+                                st.text[1] = ev_cmd ? 'e' : 'c';
                         } else if (nvars > 0 && !ev_cmd && r.chance(K.p_bump)) {
                                 st.act = A_BUMP;
                                 st.a = (int)r.below((uint64_t)nvars);
@@ -271,6 +275,13 @@ struct Gen {
                                 CmdSpec c;
                                 c.ev = 1;
                                 c.name = "%" + rand_name(5) + std::to_string(i);
+                                for (bool clash = true; clash;) {
+                                        clash = false;
+                                        for (auto &o : p.cmds)
+                                                clash |= o.name == c.name;
+                                        if (clash)
+                                                c.name += "x";
+                                }
                                 int where = (int)r.below(10);
                                 bool stat = false;
                                 // never reachable from the input: units of the two producers stay attributable
@@ -742,7 +753,14 @@ struct Gen {
                                 if (fed < lines_here && x < 0.4) {
                                         bytes line = gen_line();
                                         fed++;
-                                        if (r.chance(0.2) && line.size() > 2) {
+                                        if (line.size() > 2 && line[line.size() - 2] == '\r' && r.chance(K.p_cut_crlf)) {
+                                                // the host pauses between CR and LF long enough for everything to settle
+                                                in_op(line.substr(0, line.size() - 1));
+                                                op(r.coin() ? OP_SVCQ : OP_QUIESCE, 20000);
+                                                if (r.chance(0.3))
+                                                        op(OP_SVC, r.range(1, 30));
+                                                in_op("\n");
+                                        } else if (r.chance(0.2) && line.size() > 2) {
                                                 size_t cut = (size_t)r.range(1, (int64_t)line.size() - 1);
                                                 Op o;
                                                 o.kind = OP_IN;
@@ -946,7 +964,10 @@ struct Gen {
                         need = std::max(need, text.size() + 1);
                         rounds.push_back(rd);
                 }
-                int cap = (int)std::max<size_t>(6, need + (r.chance(0.4) ? 0 : (size_t)r.range(1, 24)));
+                // exactly holds the longest text (40 %), one byte short of it (10 %: that READ must answer ERROR or,
+                // if it prints anything, still round-trip), or slack
+                double cx = (double)r.below(1000) / 1000.0;
+                int cap = (int)std::max<size_t>(6, cx < 0.4 ? need : cx < 0.5 ? need - 1 : need + (size_t)r.range(1, 24));
                 p.shared = r.chance(0.6);
                 if (p.shared) {
                         p.buf_size = cap * 2 + (int)r.below(2);
@@ -1255,6 +1276,7 @@ void knobs_for(const std::string &prop, Knobs &K, Rng &r)
 {
         // swarm: every run also perturbs the knobs a little
         if (prop == "C01") {
+                K.p_cut_crlf = 0.2;
                 K.p_garbage = 0.2;
                 K.p_overlong = 0.1;
                 K.p_blank = 0.1;
@@ -1316,6 +1338,8 @@ void knobs_for(const std::string &prop, Knobs &K, Rng &r)
                 K.p_events = 0.8;
                 K.max_cmds = 4;
         } else if (prop == "C15" || prop == "C18") {
+                K.p_cut_crlf = 0.3;
+                K.p_crlf = 0.6;
                 K.p_probe_ok = 1.0;
                 K.p_events = 0.9;
                 K.p_hold = 0.15;
